@@ -8,6 +8,7 @@ Line-protocol driver for C13.
   G n t1 w1 … tn wn m v c0 … cd   (double bit patterns) -> Float `ghApply` of the polynomial
   L z…               (bits) -> per z  tag:value:grad   tag ∈ N(ear zero) S(mall) O(rdinary; value/grad = NaN: Φ is a torch primitive)
   W z logphi         (bits) -> backward of the not-small branches given the forward value
+  N s0 op…           (op = S n | B) -> node counts of the objects built by the construction history (`builtCounts`)
   B m v              (bits) -> Bernoulli link
   A f s              (bits) -> Beta concentrations alpha beta
 -/
@@ -52,6 +53,15 @@ def step (line : String) : String :=
           else s!"O:{fShow nan}:{fShow nan}"))
     | ["W", z, lp] => do
         some (fShow (lncdfBackwardNotSmall (← fOf z) (← fOf lp)))
+    | "N" :: s0 :: ops => do
+        let s0 ← s0.toNat?
+        let rec parse : List String → Option (List BuildOp)
+          | [] => some []
+          | "S" :: n :: r => do let n ← n.toNat?; let t ← parse r; some (.setting n :: t)
+          | "B" :: r => do let t ← parse r; some (.build :: t)
+          | _ => none
+        let ops ← parse ops
+        some (" ".intercalate ((builtCounts s0 ops).map toString))
     | ["B", m, v] => do
         some (fShow (bernoulliLink (← fOf m) (← fOf v)))
     | ["A", f, s] => do
